@@ -2486,9 +2486,18 @@ def finish_case(ctx, env, res):
     runs = [pair.ta, pair.tb]
     status, infos = env.q.wait(lambda: runs)
     res.count("quiescence_waits")
+    parked = (ctx.hold is not None and ctx.hold_state.get("held") and not ctx.release.is_set()) or \
+        any(w.ent.get("state") == "parked" for w in ctx.ent_workers)
     ctx.release.set()
     for e in "AB":
         ctx.ent_release[e].set()
+    if status != "done" and parked:
+        # a link loop that does not end while the harness itself holds a thread back (directed preemption inside a
+        # critical section: the parked thread owns a socket lock the shutdown needs) is judged only after that thread
+        # has been let go - never by which of the two harness mechanisms happened to be scheduled first
+        res.count("run_loops_rejudged_after_release_of_parked_thread")
+        status, infos = env.q.wait(lambda: runs)
+        res.count("quiescence_waits")
     if ctx.hold_state.get("lock_conflict"):
         res.count("holds_released_early_lock_conflict")
     if status != "done":
